@@ -1087,6 +1087,71 @@ def _char_preds_of(prog, g):
     return out
 
 
+def _loop_accept_set(sm, prog, g, cand, depth=0):
+    """a scanner body whose stop condition is not a plain `fn(char) -> bool` called in the body itself (a match on a
+    classifier enum; a private `eat_while(keep: fn(char) -> bool)`): the set of characters of `cand` over which its
+    character-drawing loop *continues*, found by running the loop body from the draw with the character known and
+    everything else unknown (cinterp.PartialInterp).  The loop may sit in a scanner-typed helper the body calls; a
+    predicate parameter of that helper is bound to the fn item the call site passes.  A draw whose walk never decides
+    anything on the character (every character continues, or every character stops) is not the loop's test and is
+    skipped.  None = no single readable loop."""
+    import cinterp, r_term
+    tm = sm.__dict__.get('_tm')
+    if tm is None:
+        tm = sm._tm = r_term.TermModel(prog, sm.roles)
+    found = []
+    bodies = [(g, {})]
+    for c in g.live_calls:
+        h = prog.by_id.get(c.ruid) if c.ruid else None
+        if h is not None and h is not g and not h.is_closure and h.arg_count >= 1 and sm.roles.is_scanner_ty(h.locals[1]['ty']) and h.locals[0]['ty'] in ('usize', '()', 'bool'):
+            fnp = {}
+            for k, a in enumerate(c.args):
+                o = single_origin(trace_operand(g, a, through_calls=set()))
+                if o is not None and o.kind == 'const' and isinstance(o.data, dict) and o.data.get('fn') and o.data['fn'].get('uid') in prog.by_id:
+                    fnp[k + 1] = prog.by_id[o.data['fn']['uid']]
+                elif o is not None and o.kind == 'agg' and o.data[2].get('agg') == 'closure' and not o.data[2].get('ops') and o.data[2]['closure'] in prog.by_id:
+                    pass        # a non-capturing closure: its body takes the environment first; not run here
+            bodies.append((h, fnp))
+    for h, fnp in bodies:
+        sccs = h.sccs()
+        clone_next = {x.bb for x in sm._clone_next_calls(h)}
+        adv = {x.bb for x in h.live_calls if x.ruid in tm.char_adv or ((x.rdef or '').endswith('as std::iter::Iterator>::next') and 'CharIndices' in (x.rdef or '') and x.bb not in clone_next)}
+        for c in h.live_calls:
+            ty = c.term['dest']['ty']
+            if not ty.startswith('std::option::Option<(usize, char)>') or c.term['dest']['p']:
+                continue
+            scc = next((s_ for s_ in sccs if c.bb in s_), None)
+            if scc is None or c.term.get('target') is None:
+                continue
+            acc = set()
+            okk = True
+            n_stop = 0
+            for ch in sorted(cand):
+                env = {c.term['dest']['l']: ('adt', 'std::option::Option', 1, (('tuple', (cinterp.UNK, ch)),))}
+                def outcome(bb, scc=scc, c=c, adv=adv):
+                    if bb == c.bb:
+                        return 'continue'
+                    if bb not in scc:
+                        return 'stop'
+                    if bb in adv:
+                        return 'continue'
+                    return None
+                try:
+                    r = cinterp.PartialInterp(prog).walk(h, c.term['target'], env, outcome, fn_params=fnp)
+                except cinterp.Unknown:
+                    okk = False
+                    break
+                if r == 'continue':
+                    acc.add(ch)
+                else:
+                    n_stop += 1
+            if okk and acc and n_stop:
+                found.append(acc)
+    if found and all(f == found[0] for f in found):
+        return found[0]
+    return None
+
+
 def _inline_char_consts(g):
     """characters a scanner body compares the scanned character with directly (`ch == '"'`, `match ch { '(' => ..`)"""
     out = set()
@@ -1114,7 +1179,7 @@ def _accept_set(preds, cand):
     return acc
 
 
-def rule_wordscan(roles, rm):
+def rule_wordscan(roles, rm, sm=None):
     """a word operator is recognised by a look-ahead that tests a slice of the input against the operator registry,
     and is then consumed by a scanner that cuts the token text: both must stop at the same characters, otherwise
     the token text is not the text that was found registered (`x in'abc'` -> Operator("in'abc'"))"""
@@ -1124,8 +1189,15 @@ def rule_wordscan(roles, rm):
         if g.is_closure or g.arg_count < 1 or not roles.tok_name or not roles.is_scanner_ty(g.locals[1]['ty']):
             continue
         preds = _char_preds_of(prog, g)
-        if not preds:
+        if not preds and sm is None:
             continue
+        if not preds:
+            # no plain char predicate: the stop condition may be a match on a classifier (read from the loop itself, below);
+            # only bodies that scan (directly or through one scanner-typed helper with a character loop) are candidates
+            hs = [g] + [prog.by_id[c.ruid] for c in g.live_calls if c.ruid in prog.by_id and not prog.by_id[c.ruid].is_closure
+                        and prog.by_id[c.ruid].arg_count >= 1 and roles.is_scanner_ty(prog.by_id[c.ruid].locals[1]['ty'])]
+            if not any(c.term['dest']['ty'].startswith('std::option::Option<(usize, char)>') and any(c.bb in s_ for s_ in h.sccs()) for h in hs for c in h.live_calls):
+                continue
         reads_registry = [c for c in g.live_calls if c.ruid in rm.reach_reg_lock and any('str' in t for t in c.term['arg_tys'])]
         builds_op = [1 for bb, i, pl, rv in g.assigns() if rv['k'] == 'agg' and rv.get('adt') == roles.token_adt and rv.get('variant') == 'Operator']
         if g.locals[0]['ty'] == 'bool' and reads_registry and not g.sccs() or (g.locals[0]['ty'] == 'bool' and reads_registry and not builds_op):
@@ -1166,16 +1238,36 @@ def rule_wordscan(roles, rm):
                     unread = True
                     break
                 cand |= cd
+            if not dp or not cp:
+                import cinterp
+                for x in (d, c):
+                    cand |= cinterp.callee_edges_and_consts(prog, x)
+                cand |= {0x0B, 0x0C, 0x41, 0x30, 0x28, 0x29, 0x5B, 0x7B, 0xA0, 0x3000, 0x85, 0xE9, 0x4E2D}
             icd, icc = _inline_char_consts(d), _inline_char_consts(c)
-            cand |= icd | icc
-            sd = _accept_set(dp, cand) if not unread else None
-            sc = _accept_set(cp, cand) if not unread else None
+            cand |= icd | icc | {0x20, 0x09, 0x0A, 0x0D, 0x61, 0x7A}
+            cand = {x for x in cand if 0 <= x <= 0x10FFFF and not (0xD800 <= x <= 0xDFFF)}
+            sd = (_accept_set(dp, cand) if dp else _loop_accept_set(sm, prog, d, cand)) if not unread else None
+            sc = (_accept_set(cp, cand) if cp else _loop_accept_set(sm, prog, c, cand)) if not unread else None
             if sd is not None and sc is not None:
                 sd, sc = sd | icd, sc | icc
             if sd is None or sc is None:
                 obs.append(assumed('WORDSCAN', key, 'the stop predicates of the look-ahead / the consumer are not plain character tests: not compared', d.where()))
             elif sd == sc or sd == (cand - sc):
                 obs.append(ok('WORDSCAN', key, 'the look-ahead that asks the registry and the scanner that cuts the operator text stop at the same characters (%d in the tested partition)' % len(sd), d.where()))
+                # WORDSTOP: a word operator ends at every whitespace character (`d in\n[1,2]` is `d in [1,2]`).  The sets
+                # are read up to polarity; a letter is never a stop character, which fixes it.
+                for who, st_ in (('look-ahead', sd), ('scanner', sc)):
+                    acc = st_ if (0x61 in st_ and 0x7A in st_) else (cand - st_) if (0x61 not in st_ and 0x7A not in st_) else None
+                    k2 = 'WORDSTOP|%s|%s' % (d.name if who == 'look-ahead' else c.name, who)
+                    if acc is None:
+                        obs.append(assumed('WORDSTOP', k2, 'cannot tell the accepting side of the word-operator %s: not decided' % who, d.where()))
+                    else:
+                        ws_in = sorted(x for x in (0x20, 0x09, 0x0A, 0x0D) if x in acc)
+                        if ws_in:
+                            obs.append(bad('WORDSTOP', k2, 'the word-operator %s runs over the whitespace character(s) %s: an operator word followed by that character is scanned together with what follows, so a line break / tab after `in`, `not`, `beginWith` changes the parse' % (who, ', '.join(repr(chr(x)) for x in ws_in)),
+                                           (d if who == 'look-ahead' else c).where(), body=(d if who == 'look-ahead' else c).name))
+                        else:
+                            obs.append(ok('WORDSTOP', k2, 'the word-operator %s stops at space, tab, CR and LF' % who, (d if who == 'look-ahead' else c).where()))
             else:
                 diff = sorted((sd ^ sc))[:6]
                 obs.append(bad('WORDSCAN', key, 'the look-ahead that decides "this word is a registered operator" and the scanner that cuts the operator token stop at different characters (%s): the token text is then not the text that was found registered' % ', '.join(repr(chr(x)) for x in diff),
